@@ -67,6 +67,7 @@ type rigConf struct {
 	MinAge       time.Duration `json:"min_age"`
 	Compression  int           `json:"compression"`
 	SlowRead     bool          `json:"slow_read,omitempty"` // source file reads take time (see storeWrap.GetOpener)
+	DamageFirst  bool          `json:"damage_first,omitempty"` // the first transmission of every part arrives damaged (every file fails validation once)
 	// eligibility (C17)
 	IncludeHidden bool     `json:"include_hidden"`
 	Include       []string `json:"include"`
@@ -189,6 +190,7 @@ type rig struct {
 	// what the source directory held: every content (md5) each name ever had, the content
 	// expected to arrive in the end, names the harness changed during the run
 	versions    map[string][]string
+	damaged     map[string]bool   // DamageFirst: parts that arrived damaged once already
 	wantBytes   map[string]string // C13: content of (unchanging) source files; parts handed to the gate keeper are compared with it
 	byteViol    string
 	expect      map[string]string
@@ -403,6 +405,17 @@ func (g *gkWrap) Receive(file *sts.Partial, reader io.Reader) error {
 	r.mu.Unlock()
 	if g.dead() {
 		return errors.New("injected: receiver is gone")
+	}
+	if r.conf.DamageFirst && fault == "" {
+		r.mu.Lock()
+		if r.damaged == nil {
+			r.damaged = map[string]bool{}
+		}
+		if !r.damaged[k] {
+			r.damaged[k] = true
+			fault = "corrupt"
+		}
+		r.mu.Unlock()
 	}
 	switch fault {
 	case "fail":
